@@ -351,6 +351,21 @@ def handleNeed (n : Node) (site : Nat) : Needs.Need → List Item
             Item.full site v s e row.last (sortBySeq (n.buf.filter (fun c => c.site = site ∧ c.dbv = v ∧ s ≤ c.seq ∧ c.seq ≤ e)))
       bufMsgs ++ (if !buffered && !(n.inGaps site v) then [Item.empty site v v] else [])
 
+/-- `process_sync`'s filter in front of `handle_need`: an actor the server has no bookkeeping for is
+skipped; a need is skipped when the server itself still needs all of it or it lies beyond its head. -/
+def Node.serves (n : Node) (site : Nat) (need : Needs.Need) : Bool :=
+  match n.book.find? (·.1 = site) with
+  | none => false
+  | some (_, b) =>
+    let lacking (v : Nat) : Bool := RSet.contains b.needed v || (b.max != 0 && decide (v > b.max))
+    match need with
+    | .full lo hi => !((versionsAsc lo hi).all lacking)
+    | .part v _ => !(lacking v)
+
+/-- one request through the sync server -/
+def Node.serve (n : Node) (site : Nat) (need : Needs.Need) : List Item :=
+  if n.serves site need then handleNeed n site need else []
+
 /-! ### restart -/
 
 /-- `BookedVersions::from_conn`: head from `crsql_db_versions`, partials from the sequence rows (in
